@@ -455,6 +455,13 @@ class Folder:
             if not isinstance(base, (dict, list)):
                 raise Unsupported('item assignment on ' + type(base).__name__)
             base[self._eval(t.slice, env, self._cur_mod, None)] = v
+        elif isinstance(t, ast.Subscript) and isinstance(t.value, ast.Name) and t.value.id not in env:
+            # item store on a module-level container (e.g. a hand-written memo table): the container is evaluated once per Folder
+            # (as at import time) and keeps its contents across the calls folded with this Folder - exactly like the running program
+            base = self._name(t.value.id, env, self._cur_mod, None)
+            if not isinstance(base, (dict, list)):
+                raise Unsupported('item assignment on ' + type(base).__name__)
+            base[self._eval(t.slice, env, self._cur_mod, None)] = v
         else:
             raise Unsupported('assignment to non-local in folded function')
 
